@@ -511,7 +511,9 @@ def r6_window_per_path(repo=None):
         # call graph over the handler's methods
         calls = {}
         for name, fn in m.methods(H).items():
-            calls[name] = {pyfront.call_name(c)[5:] for c in ast.walk(fn) if isinstance(c, ast.Call) and (pyfront.call_name(c) or "").startswith("self.")}
+            # calls and method values handed on (`accept = self._in_time_window`): any reference to a method of the handler
+            calls[name] = {x.attr for x in ast.walk(fn) if isinstance(x, ast.Attribute) and isinstance(x.value, ast.Name) and x.value.id == "self"
+                           and x.attr in m.methods(H)}
         target = wq.split(".")[-1]
 
         def reaches(name, seen=()):
